@@ -248,15 +248,25 @@ CLAIMED = {
         technique="Lean 4 proof (parametric reset theorem + kernel-decided extracted tables) + history search on real objects",
         design="6/C12"),
     "C07": dict(
-        category="translation_validation",
-        text="The whole serialize→parse pipeline is composed in Lean from the component models (walker, filters, serializer, "
-             "tokenizer, tree construction: H5.Model.Pipeline.roundTrip) and tied to the real pipeline by op roundtrip; the "
-             "filter order is extracted from the AST and proved to be the documented one. The identity on conforming documents "
-             "is decided by search on the real code: documents from a content-model grammar (each first checked to parse to "
-             "itself without errors) x random option combinations x walkers x encodings; failing documents are shrunk through "
-             "conforming candidates only and classified. The identity theorem is not proved.",
-        note="composed Lean model tied by correspondence; G-conf grammar defines 'conforming'; search decides the identity.",
-        technique="composed Lean 4 model validated by differential correspondence + round-trip search with shrinking",
+        category="proof",
+        text="END-TO-END identity theorem on the Lean models (C07b, 422 theorems): for every document tree t of an explicit, "
+             "decidable grammar G0 of conforming documents — doctype html, html/head[/title]/body, a body forest of text, comments, "
+             "void elements, ordinary phrasing elements (any custom name), 22 block elements, p, 13 formatting elements, h1-h6, "
+             "li/dt/dd in their lists, attributes with arbitrary NUL/CR-free values, at any depth, with the content-model side "
+             "conditions (no block below an open p, no a in a, no heading in heading ...) — C07_identity: "
+             "Pipeline.roundTrip {} {omitOptionalTags := false} t = ok (t, out, []) and C07_no_errors: the serializer reports no "
+             "error and html5lib's parser model parses the output back to exactly t with an empty parse-error list. The proof "
+             "composes C11_walk (walker), the serializer model's output, single-pull lemmas for html5lib's OWN tokenizer model on "
+             "that output, and an induction over the grammar through the tree-construction model with an arena shape invariant "
+             "(scope walks, active formatting list, adoption agency ending in round one, heading/list-item loops). 13 kernel "
+             "counter-examples show each grammar condition necessary; each was replayed on the real library (all outside the "
+             "conforming language or recorded findings). G0 membership of generated documents is decided by the Lean definition "
+             "itself (driver op g0) and every member is round-tripped on the REAL library by both walkers (identity, no errors). "
+             "Outside G0 and for the other serializer options (optional-tag omission, quoting modes, encodings, whitespace "
+             "stripping, sanitizer) the property is decided by search: parse(render(t)) = t on documents from a content-model "
+             "grammar x options, shrunk and classified; model tied by op roundtrip.",
+        note="proof on the models for the grammar G0 with default options; other options and documents outside G0 are search-level.",
+        technique="Lean 4 end-to-end proof (walker o serializer o tokenizer o tree construction on a conforming sub-grammar) + correspondence + round-trip search on the real code",
         design="6/C07"),
     "C10": dict(
         category="proof",
